@@ -86,6 +86,9 @@ func SchCorpus() []SchCorpusCase {
 	add(SchList(true, kd()), 't', List(Null(), M(E("", Int(1)))), "nullable list of kinded unions")
 	add(SchMapOf(true, sp()), 't', M(E("k", M(E("", Str("v"))))), "nullable map of stringprefix unions")
 	add(i8(), 't', M(E("v", Int(100))), "int8-bound field in range")
+	add(SchList(false, tu()), 't', List(M(E("a", Int(1))), M(E("a", Int(2)), E("b", Str("x"))), M(E("a", Int(3)))), "list of tuple structs (assembler reuse)")
+	add(SchMapOf(false, tu()), 't', M(E("k", M(E("a", Int(1)))), E("j", M(E("a", Int(2)), E("b", Str("x")), E("c", Null())))), "map of tuple structs (assembler reuse)")
+	add(SchList(false, sm()), 't', List(M(E("a", Int(1)), E("c", Null())), M(E("a", Int(2)), E("c", Int(5)), E("d", Str("z")))), "list of map structs (assembler reuse)")
 	add(SchStruct('m', SchF("a", SchScalar('A'))), 't', M(E("a", List(Null(), M(E("k", Int(1)))))), "any with nested null")
 
 	add(SchUnion('k', SchM("a", 'm', SchScalar('A')), SchM("l", 'm', SchScalar('K'))), 't', M(E("", Str("x"))), "union with an Any member")
@@ -96,6 +99,8 @@ func SchCorpus() []SchCorpusCase {
 	add(sm(), 'r', M(E("a", Int(1)), E("c", Int(1))), "renamed field's original name")
 	add(sm(), 'r', M(E("x", Int(1)), E("x", Int(2)), E("c", Int(1))), "repeated field")
 	add(sm(), 'r', M(E("x", Int(1))), "missing required")
+	add(sm(), 't', M(E("a", Int(1))), "missing required nullable field, type level")
+	add(sm(), 't', M(E("c", Null())), "missing required field, type level")
 	add(sm(), 'r', M(E("x", Int(1)), E("c", Int(1)), E("d", Null())), "null in optional non-nullable")
 	add(sm(), 't', M(E("a", Int(1)), E("a", Int(2)), E("c", Int(1))), "repeated field, type level")
 	add(ms(), 'r', M(E("a", Int(1)), E("a", Int(2))), "repeated typed-map key")
